@@ -193,7 +193,7 @@ mut("dump_takes_operand_slots_of_any_late_kind", ["C06"], "Dump.getChildIdxes/sa
     [("util.go", "\t\tif e.nodes[idx].getNodeType() == cond {\n\t\t\tres = []int16{", "\t\tif e.nodes[idx].getNodeType() >= cond {\n\t\t\tres = []int16{")], "Dump indexes four operand slots of event nodes as well")
 mut("split_lines_cuts_one_byte_late", ["C06"], "splitLinesOutsideStrings/safety",
     [("util.go", "\t\t\t\tres = append(res, s[start:i])\n\t\t\t\tstart = i + 1", "\t\t\t\tres = append(res, s[start:i])\n\t\t\t\tstart = i + 2")], "the text after a final line break is sliced beyond its end")
-mut("parent_table_one_slot_short", ["C09"], "calAndSetParentIndex/safety",
+mut("parent_table_one_slot_short", ["C09"], "calAndSetParentIndex/",
     [("compiler.go", "\tsize := int16(len(e.nodes))\n\tf := make([]int16, size)\n\n\tqueue := make([]*astNode, 0, size)", "\tsize := int16(len(e.nodes))\n\tf := make([]int16, size-1)\n\n\tqueue := make([]*astNode, 0, size)")], "the parent table misses the slot of the last node")
 # ---- probes of mechanisms that only the bounded tier covers
 mut("reduce_nesting_merges_any_bool_operator", ["C02"], "bnd/",
